@@ -71,30 +71,11 @@ theorem unpad_never_panics (buf : Bytes) (size : Nat) : (CryptoGlue.unpad buf si
         · rfl
         · split <;> rfl
 
-/-- AES-CBC-HMAC `Open` with a nonce of `NonceSize()` bytes never panics, for every key,
-ciphertext, tag and associated data — including an authentic body that is not block aligned
-(fix 5c853ad). -/
-theorem cbcHmacOpen_never_panics (P : CryptoGlue.Prims) (p : CryptoGlue.Facts.AeadParams) (key iv c ad : Bytes)
-    (hiv : iv.length = 16) : (CryptoGlue.cbcHmacOpen P p key iv c ad).isPanic = false := by
-  unfold CryptoGlue.cbcHmacOpen
-  split
-  · rfl
-  · simp only
-    split
-    · rfl
-    · split
-      · rfl
-      · rename_i hal
-        have hdec : ∃ out, CryptoGlue.cbcDecrypt (P.aes (CryptoGlue.encKeyOf p key)) iv (c.take (c.length - p.tagSize)) = .ok out := by
-          unfold CryptoGlue.cbcDecrypt
-          have h1 : ¬ iv.length ≠ 16 := by omega
-          simp only [h1, if_false]
-          have h2 : ¬ (c.take (c.length - p.tagSize)).length % 16 ≠ 0 := by simpa using hal
-          simp only [h2, if_false]
-          exact ⟨_, rfl⟩
-        obtain ⟨out, hout⟩ := hdec
-        rw [hout]
-        exact unpad_never_panics out 16
+/-- AES-CBC-HMAC `Open` never panics, for every key, nonce (of any length: fix c71e752), ciphertext,
+tag and associated data — including an authentic body that is not block aligned (fix 5c853ad). -/
+theorem cbcHmacOpen_never_panics (P : CryptoGlue.Prims) (p : CryptoGlue.Facts.AeadParams) (key iv c ad : Bytes) :
+    (CryptoGlue.cbcHmacOpen P p key iv c ad).isPanic = false :=
+  CryptoGlue.cbcHmacOpen_np P p key iv c ad
 
 example : ([0, 0, 0, 0, 0, 0, 0, 0, 0, 0, 0, 0, 0, 0, 0, 0] : Bytes).length = 16 := rfl
 
